@@ -562,6 +562,14 @@ def _schemas(draw):
              "cks": [[draw(_ci), draw(st.integers(0, 6)), draw(_optname)] for _ in range(draw(st.integers(0, 2)))],
              "fks": [[draw(st.lists(_ci, min_size=1, max_size=2)), draw(st.integers(0, 2)), draw(st.integers(0, 5)), draw(st.integers(0, 5)), draw(_optname), draw(st.integers(0, 2)), draw(st.integers(0, 2))]
                      for _ in range(draw(st.integers(0, 2)))]}
+        if t["uqs"] and draw(st.integers(0, 2)) == 0:
+            # a named UNIQUE constraint and an index on exactly the same columns
+            t["uqs"][0][1] = t["uqs"][0][1] or draw(_name)
+            t["ixs"] = t["ixs"][:2] + [[list(t["uqs"][0][0]), int(draw(st.booleans())), None, 0, None]]
+        if draw(st.integers(0, 2)) == 0 and len(cols) >= 2:
+            # composite PK so that FKs pointing here are composite
+            t["pk"] = draw(st.permutations([0, 1]))[:2]
+            t["fks"] = t["fks"][:1] + [[[draw(_ci), draw(_ci)], ti, draw(st.integers(0, 5)), draw(st.integers(0, 5)), draw(_optname), draw(st.integers(0, 2)), draw(st.integers(0, 2))]]
         tables.append(t)
     return {"tables": tables}
 
